@@ -862,9 +862,13 @@ class Object(base.Symbolic, metaclass=ObjectMeta):
       if deep or isinstance(v, base.Symbolic):
         v = base.clone(v, deep, memo)
       kwargs[k] = v
-    return self.__class__(allow_partial=self._allow_partial,
-                          sealed=self._sealed,
-                          **kwargs)  # pytype: disable=not-instantiable
+    other = self.__class__(allow_partial=self._allow_partial,
+                           sealed=self._sealed,
+                           **kwargs)  # pytype: disable=not-instantiable
+    # `accessor_writable` is not a constructor argument: carry over the value
+    # that might have been changed by `set_accessor_writable`.
+    other.set_accessor_writable(self.accessor_writable)
+    return other
 
   def _sym_missing(self) -> Dict[str, Any]:
     """Returns missing values."""
